@@ -15,11 +15,22 @@ pub fn all_terminals() -> BTreeSet<String> {
         if l.starts_with("//") {
             continue;
         }
-        // take quoted strings that appear before "=>" (or in the whole line if no arrow)
+        // take quoted strings that appear before "=>"; lines without an arrow only count when
+        // they are a bare terminal of an alternative list ("set",) -- never action code
         let head = match l.find("=>") {
             Some(i) => &l[..i],
-            None => l,
+            None => {
+                let t = l.trim_end_matches(',');
+                if t.starts_with('"') && t.ends_with('"') && t.matches('"').count() == 2 {
+                    l
+                } else {
+                    continue;
+                }
+            }
         };
+        if head.contains("format!") || head.contains("error!") || head.contains("push(") {
+            continue;
+        }
         let mut rest = head;
         while let Some(i) = rest.find('"') {
             let r2 = &rest[i + 1..];
